@@ -542,7 +542,7 @@ B("S7.isolated_characters_once", ["C09"], CB, "bounded_isolated_characters_once"
 B("C01.entry_points_total", ["C01"], CB, "bounded_entry_points_total",
   "to_svg / to_svg_string_pretty / to_svg_string_compressed / to_svg_with_settings / to_svg_with_override_size (whole pipeline, native, overflow checks on)",
   "no panic, a non-empty string is returned",
-  "all strings of <= 3 characters (thorough 4) over 31 characters (zero-width, controls, non-BMP, double-width, quote, backslash, braces, legend and drawing characters, the arc glyph U+2939) "
+  "all strings of <= 3 characters (thorough: plus all of 4 characters over the first 16) over 31 characters (zero-width, controls, non-BMP, double-width, quote, backslash, braces, legend and drawing characters, the arc glyph U+2939) "
   "through the compressed entry point, those of <= 2 characters and 13 fixed inputs (legend fragments, 3 bundled diagrams) through all five entry points x scales 0.001, 8, 1e6",
   timeout=600, timeout_thorough=3600)
 B("C11.render_scales_linearly", ["C11"], CB, "bounded_render_scales_linearly",
